@@ -81,6 +81,14 @@ pub fn pick_requested(ps: &ProjSet, req: &[u8]) -> Vec<(String, (usize, usize))>
 }
 
 pub fn eval_c09(c: &C09Case) -> CaseResult {
+    catch_case(
+        "inc-c09:panic",
+        |msg| json!({"engine": "INC-c09", "projset": serde_json::to_value(&c.ps).unwrap(), "req": c.req, "message": msg}),
+        || eval_c09_inner(c),
+    )
+}
+
+fn eval_c09_inner(c: &C09Case) -> CaseResult {
     let ps = &c.ps;
     let mut res = CaseResult {
         sample: json!({"projects": ps.summary()}),
@@ -278,6 +286,14 @@ pub fn c19_case() -> impl Strategy<Value = C09Case> {
 }
 
 pub fn eval_c19(c: &C09Case) -> CaseResult {
+    catch_case(
+        "inc-c19:panic",
+        |msg| json!({"engine": "INC-c19", "projset": serde_json::to_value(&c.ps).unwrap(), "req": c.req, "message": msg}),
+        || eval_c19_inner(c),
+    )
+}
+
+fn eval_c19_inner(c: &C09Case) -> CaseResult {
     let ps = &c.ps;
     let mut res = CaseResult {
         sample: json!({"projects": ps.summary()}),
